@@ -62,6 +62,7 @@ pub fn generate(seed: u64, tier: Tier) -> CaseSet {
     let mut rng = Rng::new(seed ^ 0xC15);
     let ncases = match tier { Tier::Quick => 60, Tier::Thorough => 600 };
     let mut cases = Vec::new();
+    let mut it = cf::Interner::default();
     let mut descr = Vec::new();
     let mut sigs = Vec::new();
     let mut stats = Stats::default();
@@ -98,7 +99,7 @@ pub fn generate(seed: u64, tier: Tier) -> CaseSet {
         for &i in &idxs {
             let p = tree.create_proof(i);
             let pv: Vec<Vec<u8>> = p.iter().map(h2v).collect();
-            proofs_txt.push(cf::pair(&cf::n(i as u64), &cf::list(&pv.iter().map(|x| cf::hex(x)).collect::<Vec<_>>())));
+            proofs_txt.push(cf::pair(&cf::n(i as u64), &cf::list(&pv.iter().map(|x| it.hex(x)).collect::<Vec<_>>())));
             queries.push(Query { kind: 0, leaf: leaves[i].clone(), idx: i as u64, root: None, proof: pv.clone(), chk: false, last: false });
             // mutations of the honest proof
             let nm = if n <= 20 { 3 } else { 6 };
@@ -173,9 +174,9 @@ pub fn generate(seed: u64, tier: Tier) -> CaseSet {
             verdict_count[(q.chk as usize) * 2 + q.last as usize] += 1;
             let t = format!(
                 "(Q {} {} {} {} {} {} {})",
-                cf::n(q.kind as u64), cf::hex(&q.leaf), cf::n(q.idx),
-                cf::opt(q.root.as_ref().map(|r| cf::hex(r))),
-                cf::list(&q.proof.iter().map(|x| cf::hex(x)).collect::<Vec<_>>()),
+                cf::n(q.kind as u64), it.hex(&q.leaf), cf::n(q.idx),
+                cf::opt(q.root.as_ref().map(|r| it.hex(r))),
+                cf::list(&q.proof.iter().map(|x| it.hex(x)).collect::<Vec<_>>()),
                 cf::b(q.chk), cf::b(q.last)
             );
             stats.evaluations += 1;
@@ -184,10 +185,10 @@ pub fn generate(seed: u64, tier: Tier) -> CaseSet {
             }
             qtxt.push(t);
         }
-        let leaves_txt = cf::list(&leaves.iter().map(|x| cf::hex(x)).collect::<Vec<_>>());
+        let leaves_txt = cf::list(&leaves.iter().map(|x| it.hex(x)).collect::<Vec<_>>());
         let case = format!(
             "(C15 {} {} {} {} {})",
-            cf::n(cid as u64), leaves_txt, cf::hex(root.as_ref()), cf::list(&proofs_txt), cf::list(&qtxt)
+            cf::n(cid as u64), leaves_txt, it.hex(root.as_ref()), cf::list(&proofs_txt), cf::list(&qtxt)
         );
         if cid < 2 && stats.samples.len() < 2 {
             stats.samples.push(format!("tree with {} leaves, height {}, root {}, {} queries; first query: {}", n, ht, cf::hexraw(root.as_ref()), queries.len(), qtxt.first().cloned().unwrap_or_default()));
@@ -203,6 +204,7 @@ pub fn generate(seed: u64, tier: Tier) -> CaseSet {
     CaseSet {
         header: "From AG Require Import Oracle.C15.\n".to_string(),
         runner: "c15_run".to_string(),
+        defs: it.defs,
         cases,
         descr,
         sigs,
